@@ -58,15 +58,17 @@ def findlabels(code, opc):
     offsets = []
     for offset, op, arg in unpack_opargs(code, opc):
         if arg is not None:
-            arg2 = arg * 2 if opc.version_tuple >= (3, 10) else arg
             if op in opc.JREL_OPS:
-                if opc.version_tuple >= (3, 11) and opc.opname[op] in ("JUMP_BACKWARD", "JUMP_BACKWARD_NO_INTERRUPT"):
+                # As in dis: every opcode with JUMP_BACKWARD in its name jumps backwards
+                # (3.11 also has POP_JUMP_BACKWARD_IF_*).
+                if opc.version_tuple >= (3, 11) and "JUMP_BACKWARD" in opc.opname[op]:
                     arg = -arg
+                arg2 = arg * 2 if opc.version_tuple >= (3, 10) else arg
                 jump_offset = offset + 2 + arg2
                 if opc.version_tuple >= (3,13):
                     jump_offset += 2 * _get_cache_size_313(opc.opname[op])
             elif op in opc.JABS_OPS:
-                jump_offset = arg2
+                jump_offset = arg * 2 if opc.version_tuple >= (3, 10) else arg
             else:
                 print("XXX", offset, op)
                 continue
